@@ -10,6 +10,7 @@ from vmc.core import scratch
 from vmc.seams import sched
 
 ID = "C08"
+TECHNIQUE = 'bounded exhaustive input enumeration against a reference model + deviation-bounded stateless exploration of every pool.map execution order through the Pool/lock seam (iterative context bounding), on the real implementation'
 LEVEL = "model_checking"
 RULE = ("coarsen leg: 18 bin tables (1-3 chromosomes with fewer/exactly/more bins than k, fixed with short last bin, variable, + 8-bin fixed / variable / uniform-looking / short-chromosome tables) x "
         "matrices (every subset for n<=3, structured family above) x storage mode x k in {2,3,4,7} x chunksize x columns/aggregation "
